@@ -4,6 +4,9 @@ Property theorems only; helper lemmas live in `Lemmas/Schedule.lean`.
 `none` stands for the Python value -1 of batch_size / epochs / max_iter.
 -/
 import FairModel.Lemmas.Schedule
+import FairModel.Lemmas.SchedLifted
+import FairModel.Lemmas.AdvStep
+import FairModel.Model.SchedLife
 
 namespace C17
 open Schedule
@@ -206,6 +209,361 @@ theorem predict_multi (classes : List Int) (o : List Rat) (hne : o ≠ []) (hlen
   · intro v hv; rw [argmaxFirst_spec o hne]; exact le_maxOf o v hv
   · intro j hj; rw [argmaxFirst_spec o hne]; exact argmaxFirst_first o j hj (by omega)
 
+
+/-! ### the tie to the source: the configuration LIFTED from `fit` / `partial_fit` / `predict`
+(`Generated/AdvScheduleSrc.lean`, rewritten from /repo on every run by harness/lifters/adv_schedule.py).
+`SchedL.fitSrc` interprets the lifted statement order, expressions, stop rule and exits; the theorems below are the
+clauses of the property for THAT interpreter, so an edit of the source re-checks them, breaks them, or is refused. -/
+
+section Lifted
+open SchedL SchedCfg
+set_option linter.unusedTactic false
+set_option linter.unreachableTactic false
+
+/-- the rejection guard: `self.epochs == -1 and self.max_iter == -1` -/
+theorem lifted_rejects : AdvScheduleSrc.rejects = reference.rejects := by
+  first
+  | rfl
+  | (funext e m; simp only [AdvScheduleSrc.rejects, reference]; grind)
+
+/-- `batch_size = X.shape[0] if self.batch_size == -1 else self.batch_size` -/
+theorem lifted_batchSize : AdvScheduleSrc.batchSize = reference.batchSize := by
+  first
+  | rfl
+  | (funext s n; simp only [AdvScheduleSrc.batchSize, reference]; grind)
+
+/-- `batches = ceil(X.shape[0] / batch_size)` -/
+theorem lifted_batches : AdvScheduleSrc.batches = reference.batches := by
+  first
+  | rfl
+  | (funext n b; simp only [AdvScheduleSrc.batches, reference])
+
+/-- `epochs = ceil(self.max_iter / batches) if self.epochs == -1 else self.epochs` -/
+theorem lifted_epochs : AdvScheduleSrc.epochs = reference.epochs := by
+  first
+  | rfl
+  | (funext e m b; simp only [AdvScheduleSrc.epochs, reference]; grind)
+
+/-- `batch_slice = slice(batch * batch_size, min((batch + 1) * batch_size, X.shape[0]))` -/
+theorem lifted_slice : AdvScheduleSrc.sliceLo = reference.sliceLo ∧ AdvScheduleSrc.sliceHi = reference.sliceHi := by
+  constructor
+  · first
+    | rfl
+    | (funext k b n; simp only [AdvScheduleSrc.sliceLo, reference]; grind)
+  · first
+    | rfl
+    | (funext k b n; simp only [AdvScheduleSrc.sliceHi, reference]; grind)
+
+/-- `self.n_iter_ = 0` before the loops, `self.n_iter_ += 1` after each train step, and the callbacks get
+    `step=self.n_iter_` -/
+theorem lifted_counter : AdvScheduleSrc.nIterInit = 0 ∧ AdvScheduleSrc.incIter = reference.incIter ∧
+    AdvScheduleSrc.cbStep = reference.cbStep := by
+  refine ⟨by first | rfl | (simp only [AdvScheduleSrc.nIterInit]), ?_, ?_⟩
+  · first
+    | rfl
+    | (funext i; simp only [AdvScheduleSrc.incIter, reference]; omega)
+  · first
+    | rfl
+    | (funext i; simp only [AdvScheduleSrc.cbStep, reference]; omega)
+
+/-- `if self.max_iter != -1 and self.n_iter_ >= self.max_iter: return self` -/
+theorem lifted_hitMax : AdvScheduleSrc.hitMax = reference.hitMax ∧ AdvScheduleSrc.exitMax = .returnSelf := by
+  constructor
+  · first
+    | rfl
+    | (funext m i; simp only [AdvScheduleSrc.hitMax, reference]; grind)
+  · decide
+
+/-- `stop = False; for cb in self.callbacks_: ...; stop = stop or result; if stop: return self`
+    (ALL callbacks run; any True stops; both loops are left) -/
+theorem lifted_stop_rule : AdvScheduleSrc.stopInit = false ∧ AdvScheduleSrc.stopAcc = .orAcc ∧
+    AdvScheduleSrc.exitStop = .returnSelf := by decide
+
+/-- order of the batch-loop body: train step, THEN the counter, THEN the max_iter test, THEN the callbacks -/
+theorem lifted_body_order : AdvScheduleSrc.body = [.train, .incIter, .checkMax, .callbacks] := by decide
+
+/-- the configuration lifted from the source is the documented reference configuration -/
+theorem lifted_cfg : AdvScheduleSrc.cfg = SchedCfg.reference := by
+  have h : AdvScheduleSrc.cfg = ⟨AdvScheduleSrc.rejects, AdvScheduleSrc.batchSize, AdvScheduleSrc.batches,
+    AdvScheduleSrc.epochs, AdvScheduleSrc.nIterInit, AdvScheduleSrc.sliceLo, AdvScheduleSrc.sliceHi,
+    AdvScheduleSrc.incIter, AdvScheduleSrc.hitMax, AdvScheduleSrc.exitMax, AdvScheduleSrc.stopInit,
+    AdvScheduleSrc.stopAcc, AdvScheduleSrc.cbStep, AdvScheduleSrc.exitStop, AdvScheduleSrc.body⟩ := rfl
+  rw [h, lifted_rejects, lifted_batchSize, lifted_batches, lifted_epochs, lifted_slice.1, lifted_slice.2,
+    lifted_counter.1, lifted_counter.2.1, lifted_counter.2.2, lifted_hitMax.1, lifted_hitMax.2, lifted_stop_rule.1,
+    lifted_stop_rule.2.1, lifted_stop_rule.2.2, lifted_body_order]
+  rfl
+
+/-- shuffle: once per epoch, before the batch loop, only under `if self.shuffle:` (so `shuffle=False` never permutes) -/
+theorem lifted_shuffle_placement : AdvScheduleSrc.shuffleAt = .perEpoch ∧ AdvScheduleSrc.shuffleGuarded = true := by
+  decide
+
+/-- `partial_fit` performs exactly one `train_step`, on the validated (X, y, A) it was given -/
+theorem lifted_partial_fit_single_step : AdvScheduleSrc.partialFitTrainSteps = 1 := by decide
+
+/-- stop predicate of a callback list: some callback returns True at step `k` -/
+def anyStop (cbs : List (Int → Bool)) : Nat → Bool := fun k => cbs.any (fun cb => cb (k : Int))
+
+/-- MAIN TIE. `fit` as interpreted from the source (lifted order, expressions, stop rule), for `n ≥ 1` rows, any
+    batch_size / epochs / max_iter (positive or unset) and ANY list of callbacks: it is rejected exactly when both epochs
+    and max_iter are unset; otherwise the trained state is the left fold of the single-step entry point (`partial_fit`)
+    over the slices of the flat schedule, `n_iter_` is the number of scheduled steps and the recorded callback
+    invocations are exactly: after every step that does not exhaust max_iter, every callback, in order, with that
+    step's number. -/
+theorem src_fit_eq_fold_partial_fit {σ : Type} (n : Nat) (bs ep mi : Option Nat) (cbs : List (Int → Bool))
+    (ts : σ → Nat → Nat → σ) (s0 : σ) (hn : 0 < n) (hbs : ∀ k, bs = some k → 0 < k) :
+    match schedule n bs ep mi (!cbs.isEmpty) (anyStop cbs) with
+    | none => fitSrc n (enc bs) (enc ep) (enc mi) cbs ts s0 = none
+    | some steps => ∃ st, fitSrc n (enc bs) (enc ep) (enc mi) cbs ts s0 = some st ∧
+        st.state = partialFitSeq ts s0 steps ∧ st.nIter = (steps.length : Int) ∧
+        st.calls = callsOf cbs.length steps := by
+  unfold fitSrc
+  rw [lifted_cfg]
+  exact fit_reference n bs ep mi cbs ts s0 hn hbs
+
+/-- both unset: ValueError, no step is made -/
+theorem src_both_unset_rejected {σ : Type} (n : Nat) (bs : Option Nat) (cbs : List (Int → Bool))
+    (ts : σ → Nat → Nat → σ) (s0 : σ) (hn : 0 < n) (hbs : ∀ k, bs = some k → 0 < k) :
+    fitSrc n (enc bs) (-1) (-1) cbs ts s0 = none := by
+  have := src_fit_eq_fold_partial_fit n bs none none cbs ts s0 hn hbs
+  rw [both_unset_rejected] at this
+  exact this
+
+/-- `epochs * ceil(n / batch_size)`, or `max_iter` if that is smaller -/
+def plannedSteps (n e : Nat) (bs mi : Option Nat) : Nat :=
+  match mi with
+  | none => e * ceilDiv n (batchSizeOf n bs)
+  | some m => min (e * ceilDiv n (batchSizeOf n bs)) m
+
+/-- number of steps of the lifted `fit` when no callback ever returns True: `epochs * ceil(n / batch_size)`, or
+    `max_iter` if smaller -/
+theorem src_steps_count {σ : Type} (n e : Nat) (bs mi : Option Nat) (cbs : List (Int → Bool))
+    (ts : σ → Nat → Nat → σ) (s0 : σ) (hn : 0 < n) (hbs : ∀ k, bs = some k → 0 < k) (hmi : ∀ m, mi = some m → 0 < m)
+    (hstop : ∀ k, anyStop cbs k = false) :
+    ∃ st, fitSrc n (enc bs) (e : Int) (enc mi) cbs ts s0 = some st ∧ st.nIter = (plannedSteps n e bs mi : Int) := by
+  have h := src_fit_eq_fold_partial_fit n bs (some e) mi cbs ts s0 hn hbs
+  cases hs : schedule n bs (some e) mi (!cbs.isEmpty) (anyStop cbs) with
+  | none => simp [schedule, epochsOf] at hs
+  | some steps =>
+    rw [hs] at h
+    obtain ⟨st, h1, _, h3, _⟩ := h
+    refine ⟨st, h1, ?_⟩
+    have hc := steps_count n e bs mi _ _ steps (by intro k; simp [hstop k]) hmi hs
+    rw [h3]
+    congr 1
+    cases mi <;> simpa [plannedSteps] using hc
+
+/-- the slices of one epoch, computed from the LIFTED slice / batches / batch-size expressions, are consecutive,
+    non-empty and cover rows `0 .. n` exactly -/
+theorem src_slices_consecutive_cover (n : Nat) (bs : Option Nat) (hn : 0 < n) (hbs : ∀ k, bs = some k → 0 < k) :
+    Covers 0 (epochSlicesSrc AdvScheduleSrc.cfg n (enc bs)) n := by
+  have hb : 0 < batchSizeOf n bs := by
+    cases bs with
+    | none => exact hn
+    | some k => exact hbs k rfl
+  rw [lifted_cfg, epochSlicesSrc_ref n bs hn hbs]
+  exact slices_consecutive_cover n _ hn hb
+
+/-- callbacks of the lifted `fit`: invoked after every completed step except one that exhausts max_iter, every
+    callback of the list in order, with step numbers 1, 2, … -/
+theorem src_callbacks_numbered {σ : Type} (n : Nat) (bs ep mi : Option Nat) (cbs : List (Int → Bool))
+    (ts : σ → Nat → Nat → σ) (s0 : σ) (st : St σ) (hn : 0 < n) (hbs : ∀ k, bs = some k → 0 < k)
+    (h : fitSrc n (enc bs) (enc ep) (enc mi) cbs ts s0 = some st) :
+    ∃ steps, schedule n bs ep mi (!cbs.isEmpty) (anyStop cbs) = some steps ∧
+      st.calls = callsOf cbs.length steps ∧
+      steps.map (·.stepNo) = List.range' 1 steps.length ∧
+      (∀ s ∈ steps, s.callbackFired = (!cbs.isEmpty && !hitMax mi s.stepNo)) := by
+  have h0 := src_fit_eq_fold_partial_fit n bs ep mi cbs ts s0 hn hbs
+  cases hs : schedule n bs ep mi (!cbs.isEmpty) (anyStop cbs) with
+  | none => rw [hs] at h0; rw [h0] at h; cases h
+  | some steps =>
+    rw [hs] at h0
+    obtain ⟨st', h1, _, _, h4⟩ := h0
+    rw [h1] at h; cases h
+    exact ⟨steps, rfl, h4, callbacks_numbered n bs ep mi _ _ steps hs, callback_fired_iff n bs ep mi _ _ steps hs⟩
+
+/-- the lifted `fit` stops at the first step at which some callback returns True -/
+theorem src_stops_at_first_true {σ : Type} (n k e : Nat) (bs ep mi : Option Nat) (cbs : List (Int → Bool))
+    (ts : σ → Nat → Nat → σ) (s0 : σ) (hn : 0 < n) (hbs : ∀ k, bs = some k → 0 < k)
+    (he : epochsOf ep mi (batchesOf n (batchSizeOf n bs)) = some e)
+    (hk0 : 0 < k) (hk : k ≤ e * ceilDiv n (batchSizeOf n bs)) (hs : anyStop cbs k = true)
+    (hbefore : ∀ j, 0 < j → j < k → anyStop cbs j = false) (hmi : ∀ m, mi = some m → k < m) :
+    ∃ st, fitSrc n (enc bs) (enc ep) (enc mi) cbs ts s0 = some st ∧ st.nIter = (k : Int) := by
+  have hne : cbs.isEmpty = false := by
+    cases cbs with
+    | nil => simp [anyStop] at hs
+    | cons _ _ => rfl
+  have h0 := src_fit_eq_fold_partial_fit n bs ep mi cbs ts s0 hn hbs
+  cases hsch : schedule n bs ep mi (!cbs.isEmpty) (anyStop cbs) with
+  | none => simp [schedule, he] at hsch
+  | some steps =>
+    rw [hsch] at h0
+    obtain ⟨st, h1, _, h3, _⟩ := h0
+    refine ⟨st, h1, ?_⟩
+    rw [hne] at hsch
+    have := stops_at_first_true n k bs ep mi (anyStop cbs) steps e hsch he hk0 hk hs hbefore hmi
+    rw [h3, this.1]
+
+/-! #### one `fit` = the fold of the CONCRETE training step over the scheduled slices -/
+
+/-- `fit` as interpreted from the source, run with the concrete `train_step` of the engine (`AdvStep.trainStep`: the
+    projected-gradient rule for every predictor tensor, the plain gradient for every adversary tensor, any optimisers,
+    autograd as the parameter `G`): the model after `fit` is the left fold of that step over the scheduled slices — the
+    same model as after issuing these slices one by one through `partial_fit`. -/
+theorem src_fit_is_fold_of_train_steps {τP τA : Type} (eng : Adversarial.Mat → Adversarial.Mat → Rat → Option Adversarial.Mat)
+    (α : Rat) (optP : AdvStep.Opt τP) (optA : AdvStep.Opt τA)
+    (G : List Adversarial.Mat → List Adversarial.Mat → Nat → Nat → AdvStep.Grads)
+    (n : Nat) (bs ep mi : Option Nat) (cbs : List (Int → Bool)) (m0 : AdvStep.Model τP τA)
+    (hn : 0 < n) (hbs : ∀ k, bs = some k → 0 < k) :
+    match schedule n bs ep mi (!cbs.isEmpty) (anyStop cbs) with
+    | none => fitSrc n (enc bs) (enc ep) (enc mi) cbs (AdvStep.trainStep eng α optP optA G) (some m0) = none
+    | some steps => ∃ st, fitSrc n (enc bs) (enc ep) (enc mi) cbs (AdvStep.trainStep eng α optP optA G) (some m0) = some st ∧
+        st.state = steps.foldl (fun m s => AdvStep.trainStep eng α optP optA G m s.lo s.hi) (some m0) ∧
+        st.nIter = (steps.length : Int) := by
+  have h := src_fit_eq_fold_partial_fit n bs ep mi cbs (AdvStep.trainStep eng α optP optA G) (some m0) hn hbs
+  cases hs : schedule n bs ep mi (!cbs.isEmpty) (anyStop cbs) with
+  | none => rw [hs] at h; exact h
+  | some steps =>
+    rw [hs] at h
+    obtain ⟨st, h1, h2, h3, _⟩ := h
+    exact ⟨st, h1, h2, h3⟩
+
+/-! #### life cycle around the schedule: which call (re-)initialises the models (`Model/SchedLife.lean`) -/
+
+section Lifecycle
+open SchedLife
+
+/-- the latch conditions as lifted from `fit`, `partial_fit`, `_validate_input`, `_raw_predict` -/
+theorem lifted_lifecycle :
+    (∀ h w, AdvScheduleSrc.fitReinit h w = (!h || !w)) ∧
+    (∀ h, AdvScheduleSrc.partialFitFirstCall h = !h) ∧
+    (∀ f c, AdvScheduleSrc.partialFitSetsClasses f c = (f && c)) ∧
+    (∀ f r, AdvScheduleSrc.setupWhen f r = (!f || r)) ∧
+    AdvScheduleSrc.rawPredictChecksFitted = true ∧
+    AdvScheduleSrc.fitValidatesBeforeReject = true := by
+  refine ⟨?_, ?_, ?_, ?_, by decide, by decide⟩
+  · intro h w; cases h <;> cases w <;> decide
+  · intro h; cases h <;> decide
+  · intro f c; cases f <;> cases c <;> decide
+  · intro f r; cases f <;> cases r <;> decide
+
+/-- `predict` on an estimator that was never fitted raises NotFittedError -/
+theorem predict_before_fit_rejected {σ : Type} : predict (fresh : Est σ) = .notFitted := by
+  simp [predict, fresh, lifted_lifecycle.2.2.2.2.1]
+
+/-- the FIRST `partial_fit` call builds the models (engine no. 1) and makes exactly one training step on them -/
+theorem partial_fit_first_call_sets_up {σ : Type} (init : Nat → σ) (ts : σ → Nat → Nat → σ) (lo hi : Nat) (cg : Bool) :
+    partialFit init ts fresh lo hi cg = (⟨true, true, some (ts (init 1) lo hi), 1, none⟩, .ok) := by
+  obtain ⟨_, h2, h3, h4, _, _⟩ := lifted_lifecycle
+  have h1 : AdvScheduleSrc.partialFitTrainSteps = 1 := lifted_partial_fit_single_step
+  cases cg <;> simp [partialFit, fresh, validateInput, h2, h3, h4, h1, trainTimes]
+
+/-- every later `partial_fit` call continues on the SAME models: one more step, no new engine, latches unchanged -/
+theorem partial_fit_later_calls_continue {σ : Type} (init : Nat → σ) (ts : σ → Nat → Nat → σ) (m : σ) (g : Nat)
+    (k : Option Int) (lo hi : Nat) (cg : Bool) :
+    partialFit init ts ⟨true, true, some m, g, k⟩ lo hi cg = (⟨true, true, some (ts m lo hi), g, k⟩, .ok) := by
+  obtain ⟨_, h2, h3, h4, _, _⟩ := lifted_lifecycle
+  have h1 : AdvScheduleSrc.partialFitTrainSteps = 1 := lifted_partial_fit_single_step
+  cases cg <;> simp [partialFit, validateInput, h2, h3, h4, h1, trainTimes]
+
+/-- a list of slices issued through `partial_fit` on an already set-up estimator = the fold of the single step -/
+theorem partialFitAll_continue {σ : Type} (init : Nat → σ) (ts : σ → Nat → Nat → σ) (steps : List Step) (m : σ) (g : Nat)
+    (k : Option Int) :
+    partialFitAll init ts ⟨true, true, some m, g, k⟩ steps = ⟨true, true, some (partialFitSeq ts m steps), g, k⟩ := by
+  induction steps generalizing m with
+  | nil => rfl
+  | cons s rest ih =>
+    simp only [partialFitAll, List.foldl_cons, partial_fit_later_calls_continue, partialFitSeq] at ih ⊢
+    exact ih (ts m s.lo s.hi)
+
+/-- `fit` with `warm_start = False` ALWAYS starts from newly initialised models (engine no. `gen + 1`), whatever
+    happened to the estimator before; `n_iter_` counts the steps of THIS call -/
+theorem fit_cold_start {σ : Type} (init : Nat → σ) (ts : σ → Nat → Nat → σ) (e : Est σ) (n : Nat) (bs ep mi : Option Nat)
+    (cbs : List (Int → Bool)) (steps : List Step) (hn : 0 < n) (hbs : ∀ k, bs = some k → 0 < k)
+    (hs : schedule n bs ep mi (!cbs.isEmpty) (anyStop cbs) = some steps) :
+    SchedLife.fit init ts e n (enc bs) (enc ep) (enc mi) false cbs =
+      (⟨true, true, some (partialFitSeq ts (init (e.gen + 1)) steps), e.gen + 1, some (steps.length : Int)⟩, .ok) := by
+  obtain ⟨h1, _, _, h4, _, h6⟩ := lifted_lifecycle
+  have hf := src_fit_eq_fold_partial_fit n bs ep mi cbs ts (init (e.gen + 1)) hn hbs
+  rw [hs] at hf
+  obtain ⟨st, hst, hs1, hs2, _⟩ := hf
+  simp [SchedLife.fit, h6, validateInput, h1, h4, hst, hs1, hs2]
+
+/-- `fit` with `warm_start = True` on an estimator that was fitted before CONTINUES on the current models (no new
+    engine); `n_iter_` restarts and counts the steps of this call -/
+theorem fit_warm_start_continues {σ : Type} (init : Nat → σ) (ts : σ → Nat → Nat → σ) (m : σ) (g : Nat) (k : Option Int)
+    (n : Nat) (bs ep mi : Option Nat) (cbs : List (Int → Bool)) (steps : List Step) (hn : 0 < n)
+    (hbs : ∀ k, bs = some k → 0 < k) (hs : schedule n bs ep mi (!cbs.isEmpty) (anyStop cbs) = some steps) :
+    SchedLife.fit init ts ⟨true, true, some m, g, k⟩ n (enc bs) (enc ep) (enc mi) true cbs =
+      (⟨true, true, some (partialFitSeq ts m steps), g, some (steps.length : Int)⟩, .ok) := by
+  obtain ⟨h1, _, _, h4, _, h6⟩ := lifted_lifecycle
+  have hf := src_fit_eq_fold_partial_fit n bs ep mi cbs ts m hn hbs
+  rw [hs] at hf
+  obtain ⟨st, hst, hs1, hs2, _⟩ := hf
+  simp [SchedLife.fit, h6, validateInput, h1, h4, hst, hs1, hs2]
+
+/-- a rejected configuration (epochs and max_iter unset) raises ValueError — but only AFTER `_validate_input` has set the
+    estimator up (the guard stands behind it in the source), so the estimator then counts as fitted -/
+theorem fit_rejected_after_setup {σ : Type} (init : Nat → σ) (ts : σ → Nat → Nat → σ) (n : Nat) (bs : Option Nat)
+    (warm : Bool) (cbs : List (Int → Bool)) (hn : 0 < n) (hbs : ∀ k, bs = some k → 0 < k) :
+    SchedLife.fit init ts fresh n (enc bs) (-1) (-1) warm cbs = (⟨true, true, some (init 1), 1, none⟩, .valueError) := by
+  obtain ⟨h1, _, _, h4, _, h6⟩ := lifted_lifecycle
+  have hf := src_both_unset_rejected (σ := σ) n bs cbs ts (init 1) hn hbs
+  cases warm <;> simp [SchedLife.fit, fresh, h6, validateInput, h1, h4, hf]
+
+/-- THE HISTORY CLAUSE, with the first-call set-up included: on two identically configured, never fitted estimators
+    (same `init`), `fit` and the same slices issued one by one through `partial_fit` leave the same models, both on their
+    first engine. -/
+theorem fit_eq_partial_fit_twin {σ : Type} (init : Nat → σ) (ts : σ → Nat → Nat → σ) (n : Nat) (bs ep mi : Option Nat)
+    (warm : Bool) (cbs : List (Int → Bool)) (steps : List Step) (hn : 0 < n) (hbs : ∀ k, bs = some k → 0 < k)
+    (hs : schedule n bs ep mi (!cbs.isEmpty) (anyStop cbs) = some steps) (hne : steps ≠ []) :
+    (SchedLife.fit init ts fresh n (enc bs) (enc ep) (enc mi) warm cbs).1.model = (partialFitAll init ts fresh steps).model ∧
+    (SchedLife.fit init ts fresh n (enc bs) (enc ep) (enc mi) warm cbs).1.gen = 1 ∧ (partialFitAll init ts fresh steps).gen = 1 := by
+  obtain ⟨h1, _, _, h4, _, h6⟩ := lifted_lifecycle
+  have hf := src_fit_eq_fold_partial_fit n bs ep mi cbs ts (init 1) hn hbs
+  rw [hs] at hf
+  obtain ⟨st, hst, hs1, hs2, _⟩ := hf
+  have hfit : SchedLife.fit init ts fresh n (enc bs) (enc ep) (enc mi) warm cbs =
+      (⟨true, true, some (partialFitSeq ts (init 1) steps), 1, some (steps.length : Int)⟩, .ok) := by
+    cases warm <;> simp [SchedLife.fit, fresh, h6, validateInput, h1, h4, hst, hs1, hs2]
+  cases steps with
+  | nil => exact absurd rfl hne
+  | cons s rest =>
+    have hp : partialFitAll init ts fresh (s :: rest) =
+        ⟨true, true, some (partialFitSeq ts (ts (init 1) s.lo s.hi) rest), 1, none⟩ := by
+      simp only [partialFitAll, List.foldl_cons, partial_fit_first_call_sets_up]
+      exact partialFitAll_continue init ts rest _ 1 none
+    rw [hfit, hp]
+    simp [partialFitSeq]
+
+end Lifecycle
+
+/-! #### predict, from the lifted decision rules -/
+
+/-- binary targets: `(pred >= self.threshold_value)`; default threshold 0.5 -/
+theorem src_predict_binary (c0 c1 : Int) (t o : Rat) :
+    (t ≤ o → predictBinarySrc [c0, c1] t o = some c1) ∧
+    (o < t → predictBinarySrc [c0, c1] t o = some c0) ∧
+    AdvScheduleSrc.thresholdDefault = 1 / 2 := by
+  have hr : AdvScheduleSrc.binaryRule = .threshold .ge := by decide
+  refine ⟨?_, ?_, by first | rfl | (simp only [AdvScheduleSrc.thresholdDefault]; norm_num)⟩
+  · intro h
+    simp [predictBinarySrc, hr, decideBinary, Cmp.eval, h, labelAt]
+  · intro h
+    have h2 : ¬ t ≤ o := not_le.mpr h
+    simp [predictBinarySrc, hr, decideBinary, Cmp.eval, h2, labelAt]
+
+/-- multiclass targets: the class at the FIRST arg-max position (the lifted rule is numpy's `argmax(pred, axis=1)`) -/
+theorem src_predict_multi (classes : List Int) (o : List Rat) :
+    predictMultiSrc classes o = predictMultiLabel classes o := by
+  have hr : AdvScheduleSrc.multiclassRule = .argmaxRow := by decide
+  simp [predictMultiSrc, hr, decideMulti, predictMultiLabel]
+
+/-- regression: the raw output; and `predict` = raw output → decision rule → inverse label transform, in this order -/
+theorem src_predict_pipeline : AdvScheduleSrc.continuousRule = .identity ∧
+    AdvScheduleSrc.predictStages = [.rawPredict, .predictorFunction, .inverseTransform] := by decide
+
+end Lifted
+
 /-! ### non-vacuity (n = 7, batch_size = 3, epochs = 2, max_iter = 5) -/
 example : schedule 7 (some 3) (some 2) (some 5) true (fun _ => false) =
     some [⟨0, 3, 1, true⟩, ⟨3, 6, 2, true⟩, ⟨6, 7, 3, true⟩, ⟨0, 3, 4, true⟩, ⟨3, 6, 5, false⟩] := by decide +kernel
@@ -220,5 +578,20 @@ example : epochSlices 7 3 = [(0, 3), (3, 6), (6, 7)] := by decide +kernel
 example : argmaxFirst [1/4, 1/2, 1/2, 0] = 1 := by decide +kernel
 example : predictMultiLabel [3, 5, 7, 9] [1/4, 1/2, 1/2, 0] = some 5 := by decide +kernel
 example : predictBinaryLabel [3, 5] (1/2) (1/2) = some 5 := by decide +kernel
+-- the interpreter at the lifted configuration: two callbacks, the second says True at step 4 (both are called there)
+example : (SchedL.fitSrc 7 3 2 (-1) [fun _ => false, fun k => k == 4]
+    (fun (l : List (Nat × Nat)) lo hi => l ++ [(lo, hi)]) []).map (fun r => (r.state, r.nIter, r.calls)) =
+    some ([(0, 3), (3, 6), (6, 7), (0, 3)], 4, [(0, 1), (1, 1), (0, 2), (1, 2), (0, 3), (1, 3), (0, 4), (1, 4)]) := by
+  decide +kernel
+-- max_iter = 5 ends the run without calling the callback after step 5
+example : (SchedL.fitSrc 7 3 2 5 [fun _ => false]
+    (fun (l : List (Nat × Nat)) lo hi => l ++ [(lo, hi)]) []).map (fun r => (r.state, r.nIter, r.calls)) =
+    some ([(0, 3), (3, 6), (6, 7), (0, 3), (3, 6)], 5, [(0, 1), (0, 2), (0, 3), (0, 4)]) := by decide +kernel
+example : SchedL.epochSlicesSrc AdvScheduleSrc.cfg 7 3 = [(0, 3), (3, 6), (6, 7)] := by decide +kernel
+-- life cycle: predict first (NotFitted), first partial_fit builds engine 1, a warm fit continues on it (2 more steps,
+-- n_iter_ = 2), a cold fit builds engine 2 and trains it on one slice
+example : (SchedLife.runOps [.predict, .pfit 0 2 false, .fit 4 2 1 (-1) true, .fit 4 (-1) 1 (-1) false]).1 =
+    ["notfitted:0:x:x", "ok:1:x:1/1", "ok:1:2:1/3", "ok:2:1:2/1"] := by decide +kernel
+example : SchedL.predictBinarySrc [3, 5] AdvScheduleSrc.thresholdDefault (1/2) = some 5 := by decide +kernel
 
 end C17
